@@ -12,6 +12,7 @@ var checks = map[string]func(*core.Ctx){
 	"C11": props.C11,
 	"C04": props.C04,
 	"C01": props.C01,
+	"C10": props.C10,
 	"C02": props.C02,
 	"C03": props.C03,
 }
